@@ -1,13 +1,13 @@
 #!/bin/bash
-# usage: confirm.sh <ID> <k>  -- confirms a seeded change in the scratch clone /tmp/seed5/wt-<ID>
-ID=$1; K=$2; WT=/tmp/seed5/wt-$ID; OUT=/tmp/seed5/$ID-out/$K; LOG=$OUT/confirm.log
+# usage: confirm.sh <ID> <k>  -- confirms a seeded change in a scratch clone of its own (/tmp/seed5/cwt; never the clone an agent works in)
+ID=$1; K=$2; WT=/tmp/seed5/cwt; AWT=/tmp/seed5/wt-$ID; OUT=/tmp/seed5/$ID-out/$K; LOG=$OUT/confirm.log
 export GOPROXY=off GOSUMDB=off GOTOOLCHAIN=local GOFLAGS=
 exec > $LOG 2>&1
 cd $WT || exit 1
 git checkout -q -- . ; git clean -fdq
-python3 - "$OUT" "$WT" <<'PY'
+python3 - "$OUT" "$WT" "$AWT" <<'PY'
 import json,sys,shutil,os
-out,wt=sys.argv[1],sys.argv[2]
+out,wt,awt=sys.argv[1],sys.argv[2],sys.argv[3]
 m=json.load(open(out+'/meta.json'))
 places=[]
 for d in m.get('demo_files',[]):
@@ -16,7 +16,7 @@ for d in m.get('demo_files',[]):
     if not dst.endswith('.go'): dst=os.path.join(dst,os.path.basename(d['file']))
     dst=os.path.join(wt,dst)
     places.append((src,dst))
-json.dump({'places':places,'cmd':m['demo_cmd'].replace('<repo root>',wt)},open(out+'/.confirm.json','w'))
+json.dump({'places':places,'cmd':m['demo_cmd'].replace('<repo root>',wt).replace(awt,wt)},open(out+'/.confirm.json','w'))
 PY
 PLACES=$(python3 -c "import json;print('\n'.join(a+' '+b for a,b in json.load(open('$OUT/.confirm.json'))['places']))")
 CMD=$(python3 -c "import json;print(json.load(open('$OUT/.confirm.json'))['cmd'])")
